@@ -69,7 +69,7 @@ func readDirSnap(dir string) (map[string]SnapEntry, error) {
 		if err != nil {
 			return err
 		}
-		fi, err := d.Info()
+		fi, err := os.Stat(p) // through a symbolic link: content and age are those of the file it points to
 		if err != nil {
 			return err
 		}
@@ -252,6 +252,28 @@ func laneP_C10(t *testing.T, plan *Plan, w *World, sink *Sink) {
 				sink.res.Harness = append(sink.res.Harness, "lane P materialize: "+err.Error())
 				return
 			}
+			// an artifact may be a symbolic link (the certificate is deployed elsewhere and linked into
+			// the PKI directory): reading, writing and its age all concern the file it points to
+			lr := NewRng(Mix(plan.Seed, 5151))
+			if lr.Chance(1, 3) {
+				store := dir + "-deploy"
+				if os.MkdirAll(store, 0755) == nil {
+					defer removeAll(store)
+					for _, e := range w.Entities() {
+						pth := filepath.Join(dir, filepath.FromSlash(e.PemPath()))
+						if _, err := os.Lstat(pth); err == nil && lr.Chance(1, 2) {
+							target := filepath.Join(store, strings.ReplaceAll(e.PemPath(), "/", "_"))
+							if os.Rename(pth, target) == nil && os.Symlink(target, pth) == nil {
+								sink.Cell("lane:P:symlinked-artifact")
+								// the link itself is as old as the artifact (it was made when the artifact was)
+								if fi, err := os.Stat(target); err == nil {
+									lchtimes(pth, fi.ModTime())
+								}
+							}
+						}
+					}
+				}
+			}
 			before, _ := readDirSnap(dir)
 			a := ans
 			var in *string
@@ -325,3 +347,8 @@ func laneP_C10(t *testing.T, plan *Plan, w *World, sink *Sink) {
 }
 
 func removeAll(dir string) { os.RemoveAll(dir) }
+
+// lchtimes sets the modification time of a symbolic link itself (touch -h: utimensat with AT_SYMLINK_NOFOLLOW).
+func lchtimes(path string, t time.Time) {
+	exec.Command("touch", "-h", "-d", t.UTC().Format("2006-01-02T15:04:05.000000000Z"), path).Run()
+}
